@@ -619,3 +619,100 @@ func LenAtLeastOne(v ssa.Value, depth int) bool {
 	}
 	return false
 }
+
+// DivLoop is a loop `for v != 0 { …; v = v / d }` whose only progress towards its exit is the integer division.
+type DivLoop struct {
+	Fn       *ssa.Function
+	Header   *ssa.BasicBlock
+	Div      *ssa.BinOp
+	MinusOne bool // the dividend is v-1 (then d >= 1 already makes progress)
+}
+
+// DivLoops lists such loops of fn.
+func DivLoops(fn *ssa.Function) []DivLoop {
+	var out []DivLoop
+	for _, l := range Loops(fn) {
+		h := l.Header
+		ifi, ok := h.Instrs[len(h.Instrs)-1].(*ssa.If)
+		if !ok {
+			continue
+		}
+		cmp, ok := ifi.Cond.(*ssa.BinOp)
+		if !ok || (cmp.Op != token.NEQ && cmp.Op != token.GTR) {
+			continue
+		}
+		phi, ok := cmp.X.(*ssa.Phi)
+		if !ok || phi.Block() != h {
+			continue
+		}
+		if z, ok := ConstInt(cmp.Y); !ok || z != 0 {
+			continue
+		}
+		for i, e := range phi.Edges {
+			if !l.Blocks[h.Preds[i]] {
+				continue
+			}
+			div, ok := e.(*ssa.BinOp)
+			if !ok || div.Op != token.QUO {
+				continue
+			}
+			if _, isConst := div.Y.(*ssa.Const); isConst {
+				continue
+			}
+			minusOne := false
+			switch x := div.X.(type) {
+			case *ssa.Phi:
+				if x != phi {
+					continue
+				}
+			case *ssa.BinOp:
+				if x.Op == token.SUB && x.X == ssa.Value(phi) {
+					if k, ok := ConstInt(x.Y); ok && k >= 1 {
+						minusOne = true
+					} else {
+						continue
+					}
+				} else {
+					continue
+				}
+			default:
+				continue
+			}
+			out = append(out, DivLoop{fn, h, div, minusOne})
+		}
+	}
+	return out
+}
+
+// ProveAtLeast decides v >= n at block at: a test on v against a constant keeps control away from at otherwise.
+func ProveAtLeast(fn *ssa.Function, v ssa.Value, n int64, at *ssa.BasicBlock) (bool, string) {
+	for _, a := range CondAtoms(fn) {
+		cmp, ok := a.(*ssa.BinOp)
+		if !ok || !sameValue(cmp.X, v) {
+			continue
+		}
+		k, ok := ConstInt(cmp.Y)
+		if !ok {
+			continue
+		}
+		// when control stays away from `at` for the truth value `small` of the atom, v is at least `least` at `at`
+		var small, decided bool
+		switch cmp.Op {
+		case token.LSS: // v < k excluded: v >= k
+			small, decided = true, k >= n
+		case token.LEQ: // v <= k excluded: v >= k+1
+			small, decided = true, k+1 >= n
+		case token.GEQ: // !(v >= k) excluded: v >= k
+			small, decided = false, k >= n
+		case token.GTR: // !(v > k) excluded: v >= k+1
+			small, decided = false, k+1 >= n
+		}
+		if !decided {
+			continue
+		}
+		if !ForwardReach(fn.Blocks[0], map[ssa.Value]bool{a: small}, nil)[at] {
+			return true, fmt.Sprintf("the loop is not reached when the divisor is below %d", n)
+		}
+	}
+	return false, fmt.Sprintf("no test keeps control away when the divisor is below %d", n)
+}
